@@ -596,7 +596,11 @@ class BGP(protocol.Protocol):
 
         """Negotiates the hold time"""
 
-        self.fsm.hold_time = min(self.fsm.hold_time, hold_time)
+        if 0 < hold_time < 3:
+            # RFC 4271 4.2: hold time values of one or two seconds must be rejected
+            self.fsm.hold_time = hold_time
+        else:
+            self.fsm.hold_time = min(self.fsm.hold_time, hold_time)
         if self.fsm.hold_time != 0 and self.fsm.hold_time < 3:
             self.fsm.open_message_error(bgp_cons.ERR_MSG_OPEN_UNACCPT_HOLD_TIME)
             # Derived times
